@@ -51,6 +51,8 @@ type Server struct {
 	listenerMutex sync.Mutex
 	// acceptLoops counts the running accept loops so that Stop can wait for them.
 	acceptLoops sync.WaitGroup
+	// requirePassAuthenticator is the authenticator Start registered for requirepass.
+	requirePassAuthenticator auth.Authenticator
 }
 
 // NewServer returns a new server instance.
@@ -100,9 +102,17 @@ func (server *Server) RegisterExexutor(cmd string, executor Executor) {
 // Start starts the server.
 func (server *Server) Start() error {
 	password, requirePass := server.ConfigRequirePass()
+	// The authenticator registered for a previous requirepass must not outlive it:
+	// every authenticator has to accept, so it would refuse the new password too.
+	if server.requirePassAuthenticator != nil && (!requirePass || !server.HasClearTextPasswordAuthenticator("", password)) {
+		server.RemoveAuthenticator(server.requirePassAuthenticator)
+		server.requirePassAuthenticator = nil
+	}
 	if requirePass {
 		if !server.HasClearTextPasswordAuthenticator("", password) {
-			server.AddAuthenticator(auth.NewClearTextPasswordAuthenticatorWith("", password))
+			authenticator := auth.NewClearTextPasswordAuthenticatorWith("", password)
+			server.AddAuthenticator(authenticator)
+			server.requirePassAuthenticator = authenticator
 		}
 	}
 
